@@ -37,13 +37,13 @@ CLAIMS = {
                  "Every listed round trip holds for every enumerated value under both runners, truncation is toward zero, and every out-of-range or unparsable conversion is an evaluation error.",
                  "Values outside the alphabets; spellings the property is silent on (surrounding spaces, underscores, non-ASCII digits, nan/inf, out-of-range offset minutes) are counted, not compared."),
     "C11": claim("C11", BE + " of instants x durations x offsets x IANA zones x accessors and of duration texts; oracle = pure-integer proleptic-Gregorian calendar and exact rational duration grammar",
-                 "All arithmetic identities, range errors, the ten accessors in UTC / every 15-minute offset / seven IANA zones, and every duration text of the bounded grammar agree with an independent calendar computation that never imports datetime.",
+                 "All arithmetic identities, range errors, the ten accessors in UTC / every 15-minute offset / eight IANA zones (one with a seconds-valued offset), four ways of constructing the operand (fields, Z text, positive- and negative-offset text), and every duration text of the bounded grammar agree with an independent calendar computation that never imports datetime; every term of a 37-term alphabet is also evaluated after every other term in one process (history sub-space).",
                  "Leap seconds, pre-1971 IANA offsets and instants outside the alphabet are not explored; local civil dates leaving years 1..9999 are not compared."),
     "C13": claim("C13", BE + " of every well-typed term of the generator (root and nested one level); oracle = reference type checker -> library class (recursively) and type(e) == T for all twelve type names",
                  "For each well-typed program both runners' return values are instances of the library class of the program's CEL type, containers hold library objects only, and type(e) == T is true for exactly the matching name.",
                  "Only the signature of mc/gen.py is typed; programs that raise at run time have no value to judge."),
     "C15": claim("C15", BE + " of all JSON documents to depth 2 (thorough 3) over a scalar alphabet and of every valid path in every spelling; oracle = type-strict JSON equality, class mapping, path walk, RFC 3339 / seconds / base64 references",
-                 "Every enumerated document converts to the prescribed CEL classes, round-trips type-strictly through json.dumps and json.dump with the library encoder, and every path reaches the same element under both runners; timestamps, durations and bytes encode as prescribed.",
+                 "Every enumerated document converts to the prescribed CEL classes, round-trips type-strictly through json.dumps and json.dump with the library encoder, and every path reaches the same element under both runners; timestamps, durations and bytes encode as prescribed; converting a converted document again changes nothing, and every history of up to three encode / iterencode / decode calls on one encoder / decoder object gives the single-call results.",
                  "Documents beyond the depth/size bound and scalars outside the alphabet are not explored; fractional-second encodings are not compared."),
     "C05": claim("C05", "explicit-state exploration over histories of real API calls (env / prog / eval / reeval; one environment slot, two program slots): ALL histories up to a depth bound plus BFS with de-duplication by a canonical digest of slot contents, runner-object structure and changed process-wide names; each evaluation compared with the same evaluation alone in a fresh python subprocess",
                  "Every history within the bound is replayed on fresh real objects from the pristine process state; each evaluation outcome (value, class, or error) must equal the outcome of [env, prog, eval] run alone in a fresh process, bindings must be left unmodified and re-evaluation must reproduce the previous outcome. Every violation is re-run in a fresh subprocess before it is reported.",
@@ -62,21 +62,21 @@ CLAIMS = {
                  "Every way of supplying a host function yields the same binding in function and method form, the function is invoked once per reached call site with the evaluated arguments, returned / raised errors behave as evaluation errors absorbed by || && ?:, a function named like a built-in replaces it for that program only (every program order), and unbound names are errors.",
                  "Small integer arguments; evaluation order between sibling call sites is not asserted."),
     "C16": claim("C16", "stateless preemption-bounded exploration (iterative context bounding) of 2-3 real threads under a cooperative scheduler that owns every Python line event inside the library and the generated code; oracle = each thread's result vector equals its solo vector (fresh python subprocess)",
-                 "Every schedule with at most the stated number of preemptions, for every runner mix and for cold and warm parser state, is executed on the real library; each thread creates its own Environment and program and evaluates; no schedule changes any thread's results. The thread programs are forced to collide (same scratch names and variable names, pairwise different results).",
+                 "Every schedule with at most the stated number of preemptions, for every runner mix and for cold and warm parser state, is executed on the real library; each thread creates its own Environment and program and evaluates; no schedule changes any thread's results. The thread programs are forced to collide (same scratch names and variable names, pairwise different results; one pair with identical generated code, one pair binding different host functions under one name, one deeply nested program that needs the raised recursion limit); configurations at function-entry granularity near the API explore two (thorough three) preemptions.",
                  "Switch points are Python line events in celpy/*.py and generated code (byte-code events in the functions touching process-wide state for the opcode configuration): C-level callee internals are atomic under the GIL. Executions run in long-lived workers with the library's process-wide state restored between executions; violations are confirmed from a pristine fork. Free-running stress is sampling and is not used.",
                  engine=E3, category="model_checking"),
-    "C17": claim("C17", BE + " of helper inputs (list pairs, strings, glob patterns x texts, every prefix length of six networks x boundary targets, version pairs, tag lists, ARN shapes) called directly and through CEL, plus explicit-state exploration of all evaluation histories up to length 4 for the filter context; oracle = set algebra, shell-pattern matcher, 32-bit CIDR arithmetic, version tuples, first-match tags, ARN table, context model",
+    "C17": claim("C17", BE + " of helper inputs (list pairs, strings, glob patterns x texts, every prefix length of six networks x boundary targets, version pairs, tag lists, ARN shapes) called directly and through CEL, plus explicit-state exploration of all evaluation histories up to length 4 for the filter context (successful / CEL-failing / host-raising evaluations and one nested evaluation, four ways of installing the filter); oracle = set algebra, shell-pattern matcher, 32-bit CIDR arithmetic, version tuples, first-match tags, ARN table, context model",
                  "Each helper agrees with its reference on every enumerated input in function and method form through the FUNCTIONS binding, and after every sequence of successful / CEL-failing / host-raising evaluations the filter context is the one installed during the evaluation and is cleared afterwards.",
                  "IPv6 and AWS-calling helpers are out of scope; histories run back to back inside forked chains that continue only while the context reads as None (guarded by fresh-fork and fresh-subprocess runs of short histories)."),
     "C18": claim("C18", BE + " of every filter tree within a depth / leaf / connective bound over value clauses and one clause of each compound rewriter family, under every truth assignment; oracle = Custodian combinators applied to the value of each leaf's own text",
-                 "The emitted text of every enumerated tree parses with the library's parser and evaluates, with the library's evaluator, to the value the Custodian combinators give for the leaves' values, through logical_connector and c7n_rewrite.",
+                 "The emitted text of every enumerated tree parses with the library's parser and evaluates, with the library's evaluator, to the value the Custodian combinators give for the leaves' values, through logical_connector and c7n_rewrite; every ordered pair of 30 (entry point, filter) items translated in one process state equals the pristine translation.",
                  "Trees beyond the bound; compound leaves not at every position of every shape; stub host functions for compound clauses under the interpreted runner."),
     "C19": claim("C19", BE + " of ops x value kinds x value_type transforms x boundary resources x key forms, every string up to length 3 over a quoting/escape alphabet in every literal position, day / second counts, every table entry; oracle = the relation each op names (c7nrel), literal round trip, duration length, CELParser acceptance",
-                 "Every enumerated value clause evaluates to the decision of the named relation on resources on both sides of each boundary, every policy string comes back unchanged from the emitted literal, durations denote the requested length and every (rewriter, resource type) table entry is syntactically valid CEL.",
+                 "Every enumerated value clause evaluates to the decision of the named relation on resources on both sides of each boundary, every policy string comes back unchanged from the emitted literal, durations denote the requested length and every (rewriter, resource type) table entry is syntactically valid CEL; every ordered pair of a 37-clause alphabet translated in one process state equals the pristine translation.",
                  "regex, cidr, date, version and value_from transforms are outside the listed unambiguous ones; present/absent on an existing-but-empty attribute is not compared."),
     "C20": claim("C20", BE + " of -n expressions with and without -b, token strings for syntax errors, --arg bindings, and all NDJSON streams up to length 4 over a document alphabet x expressions x option sets through main(argv) in process (and a fixed list through a real subprocess); oracle = reference status/output table and the stream-independence differential",
-                 "Output and exit status follow the statement for every enumerated invocation; line k of a stream equals the output of the one-document stream [doc_k] and the status is the worst per-document status.",
-                 "-i, -f, -v and stat() are not explored; cases the statement is silent on (-b in NDJSON mode with a non-boolean, empty NDJSON line) are counted, not compared."),
+                 "Output and exit status follow the statement for every enumerated invocation (the -b rule per document as well as under -n; --arg names also present in the environment); line k of a stream equals the output of the one-document stream [doc_k] and the status is the worst per-document status.",
+                 "-i, -f, -v and stat() are not explored; cases the statement is silent on (an empty NDJSON line, the status of a document that is well-formed JSON but has no CEL value) are counted, not compared."),
 }
 
 NOT_YET = "check not built yet in this session (see DESIGN.md section 9 build order)"
